@@ -706,6 +706,11 @@ func (e *Engine) newSitesResult() *FuncResult {
 			known[f[0]] = true
 		}
 	}
+	for _, l := range loadLock(lockPath, "C03-keyed") {
+		if f := strings.Fields(l); len(f) > 0 {
+			known[f[0]] = true
+		}
+	}
 	n := 0
 	for _, s := range e.mapRangeSites() {
 		if s.Root.Pkg != nil {
@@ -975,4 +980,82 @@ func firstUseIsTotalSort(v ssa.Value) bool {
 		}
 	}
 	return false
+}
+
+// keyedSitesResult: map-range sites of the form "one object per map key, stored under that key, the
+// collection sorted afterwards" ("C03-keyed <site>" lines of the lock). Their order-independence rests on
+// the stored name being the map key ITSELF: distinct iterations then write distinct entries. One structural
+// obligation per site: every value stored into the Name field of an ast.Object built in the loop body is
+// the range key, unmodified (a name derived from the key by a non-injective function - say a sanitised
+// one - makes two keys collide and the survivor depends on iteration order).
+func (e *Engine) keyedSitesResult() *FuncResult {
+	ctx := newCtx(e, e.anyFunction())
+	ctx.fnKey = "map-range-keyed-sites"
+	res := &FuncResult{Key: "map-range-keyed-sites", Ctx: ctx}
+	want := map[string]bool{}
+	for _, l := range loadLock(filepath.Join(verifRoot(), "obligations.lock"), "C03-keyed") {
+		if f := strings.Fields(l); len(f) > 0 {
+			want[f[0]] = true
+		}
+	}
+	for _, s := range e.mapRangeSites() {
+		if !want[s.Name] {
+			continue
+		}
+		delete(want, s.Name)
+		fn := s.Fn
+		f := &Frame{ctx: ctx, fn: fn, tmap: TMap{}, vals: map[ssa.Value]Val{}}
+		f.analyzeLoops()
+		var li *loopInfo
+		var next *ssa.Next
+		for _, b := range fn.Blocks {
+			for _, in := range b.Instrs {
+				if nx, ok := in.(*ssa.Next); ok && nx.Iter == ssa.Value(s.Range) {
+					li, next = f.loops[b], nx
+				}
+			}
+		}
+		ok := li != nil
+		n := 0
+		if ok {
+			isKey := func(v ssa.Value) bool {
+				ex, isEx := v.(*ssa.Extract)
+				return isEx && ex.Tuple == ssa.Value(next) && ex.Index == 1
+			}
+			for b := range li.body {
+				for _, in := range b.Instrs {
+					st, isSt := in.(*ssa.Store)
+					if !isSt {
+						continue
+					}
+					fa, isFA := st.Addr.(*ssa.FieldAddr)
+					if !isFA {
+						continue
+					}
+					pt, isP := fa.X.Type().Underlying().(*types.Pointer)
+					if !isP {
+						continue
+					}
+					nt, isN := pt.Elem().(*types.Named)
+					if !isN || nt.Obj().Name() != "Object" {
+						continue
+					}
+					if nt.Underlying().(*types.Struct).Field(fa.Field).Name() != "Name" {
+						continue
+					}
+					n++
+					if !isKey(st.Val) {
+						ok = false
+					}
+				}
+			}
+			ok = ok && n > 0
+		}
+		ctx.addOblig("commute", s.Name+":each-object-is-stored-under-the-map-key-itself", BoolLit(ok), s.Pos)
+	}
+	for name := range want {
+		_ = name // a keyed site that no longer exists as a map range cannot be order dependent any more
+	}
+	res.Obligs = ctx.obligs
+	return res
 }
